@@ -1371,6 +1371,9 @@ class OperatorComp(Operator):
         if out is None:
             return self.left(self.right(x))
         else:
+            if isinstance(self.right.range, Field):
+                # No in-place evaluation into a scalar intermediate
+                return self.left(self.right(x), out=out)
             tmp = (self.__tmp if self.__tmp is not None
                    else self.right.range.element())
             self.right(x, out=tmp)
@@ -1763,6 +1766,9 @@ class OperatorRightScalarMult(Operator):
         if out is None:
             return self.operator(self.scalar * x)
         else:
+            if isinstance(self.domain, Field):
+                # Scalar input, no temporary needed (or possible)
+                return self.operator(self.scalar * x, out=out)
             if self.__tmp is not None:
                 tmp = self.__tmp
             else:
